@@ -25,6 +25,12 @@ def corpus():
         # otherwise the tombstones shadowing it are merged away: fixed defect e043e9c)
         S.Case("corpus-unlink-then-merge", {"mfs": 0, "cache": 0, "conc": 1, "frag": (0, 1), "dead": 0, "small": 0, "sync": False},
                [("set", b"k", b"v"), ("del", b"other"), ("del", b"k"), ("merge",), ("merge",), ("set", b"z", b"w"), ("merge",)]),
+        # sync=always: the fsync behind the first record of a fresh active file fails, a merge replaces that file, the key is deleted,
+        # the tombstone is merged away (fixed defect 6ff1d59: the file had no statistics row and was never selected again)
+        S.Case("corpus-fsync-rowless", {"mfs": 2 ** 31, "cache": 256, "conc": 1, "frag": (0, 1), "dead": 0, "small": 0, "sync": True},
+               [("set", b"a", b"1"), ("merge",), ("set", b"k", b"v"), ("merge",), ("del", b"k"), ("merge",)]),
+        S.Case("corpus-fsync-rowless-del", {"mfs": 2 ** 31, "cache": 256, "conc": 1, "frag": (0, 1), "dead": 0, "small": 0, "sync": True},
+               [("set", b"k", b"v"), ("merge",), ("del", b"k"), ("merge",), ("set", b"k", b"w"), ("del", b"x"), ("merge",)]),
         S.Case("corpus-unlink", {"mfs": 0, "cache": 256, "conc": 1, "frag": (0, 1), "dead": 0, "small": 10 ** 9, "sync": False},
                [("set", b"k", b"v"), ("del", b"k"), ("set", b"x", b"y"), ("merge",), ("set", b"z", b"w")]),
     ]
@@ -116,8 +122,11 @@ def oracle(c):
     return bad
 
 
-def failed_append_tie(rep, cases):
-    """Cases in which the injected fault hit the data-file write of a set or delete: the model state after a failed append
+def failed_append_tie(rep, cases, what="append"):
+    """what="fsync": cases in which the injected fault hit the fsync of the active data file inside a set or delete (sync=always):
+    the model's failed_fsync (Store/Engine.v; theorems in Store/FaultFsync.v) must give every later result, the index, the counters,
+    the bytes of every file and everything after the restart.
+    what="append": cases in which the injected fault hit the data-file write of a set or delete: the model state after a failed append
     (Store/Engine.v after_failed_append, step_r; theorems in Store/FaultContinue.v) must give every later result, the index and
     the counters of the running process, and everything after the restart (including the record that was still buffered and
     is written out by the clean close)."""
@@ -128,13 +137,14 @@ def failed_append_tie(rep, cases):
         if not f or c.impl is None or not c.impl or c.impl[0] != "open ok":
             continue
         opi, kind, name = f[0]
-        if kind != "write" or not name.endswith(".data") or not (0 <= opi < len(c.ops)) or c.ops[opi][0] not in ("set", "del"):
+        if kind != ("write" if what == "append" else "fsync") or not name.endswith(".data") or not (0 <= opi < len(c.ops)) \
+                or c.ops[opi][0] not in ("set", "del"):
             continue
         if len(c.impl) < len(c.ops) + 1 or any(l in ("panic", "abandoned") for l in c.impl):
             continue                       # the oracle reports those
         sel.append((c, opi))
     if not sel:
-        rep.obligation("correspondence failed append: at least one case", False)
+        rep.obligation("correspondence failed %s: at least one case" % what, False)
         return {"cases": 0}
     nsel = len(sel)
     if len(sel) > 800:
@@ -154,7 +164,10 @@ def failed_append_tie(rep, cases):
                 continue
             if i == opi:
                 one = S.Case("x", c.cfg, [o])
-                ops.append("FailAppend (%s) %s" % (S.coq_case(one).split(", [Op (", 1)[1][:-3], "true" if kept(c, opi) else "false"))
+                if what == "fsync":
+                    ops.append("FailFsync (%s)" % S.coq_case(one).split(", [Op (", 1)[1][:-3])
+                else:
+                    ops.append("FailAppend (%s) %s" % (S.coq_case(one).split(", [Op (", 1)[1][:-3], "true" if kept(c, opi) else "false"))
                 continue
             one = S.Case("x", c.cfg, [o])
             if o[0] == "merge":
@@ -192,15 +205,16 @@ def failed_append_tie(rep, cases):
             impl = [impl[0]] + impl[2:]     # drop the result line of the failat marker
             ncmp += 1
             # the bytes of the files are not compared: what a failed append left behind is not a record (junk tail)
-            mm = [S.norm(x) for x in model[:-1] if not x.startswith("cat ")]
-            ii = [S.norm(x) for x in impl[:len(model) - 1] if not x.startswith("cat ")]
+            # (failed fsync: the record is whole, the bytes of every file are compared too)
+            mm = [S.norm(x) for x in model[:-1] if what == "fsync" or not x.startswith("cat ")]
+            ii = [S.norm(x) for x in impl[:len(model) - 1] if what == "fsync" or not x.startswith("cat ")]
             if mm != ii:
                 ndis += 1
                 j = next((k for k in range(min(len(mm), len(ii))) if mm[k] != ii[k]), min(len(mm), len(ii)))
-                rep.disagree.append({"obligation": "correspondence failed append: model = implementation", "case": c.show(), "fault": c.trace["fails"][:1],
+                rep.disagree.append({"obligation": "correspondence failed %s: model = implementation" % what, "case": c.show(), "fault": c.trace["fails"][:1],
                                      "first_difference_at": j, "model": model[max(0, j - 1):j + 2], "impl": impl[max(0, j - 1):j + 2]})
-    rep.obligation("the failed-append model evaluates on every selected case", ok_eval)
-    rep.obligation("correspondence failed append: results, index, counters and restart = the failed-append model on every case", ndis == 0 and ok_eval)
+    rep.obligation("the failed-%s model evaluates on every selected case" % what, ok_eval)
+    rep.obligation("correspondence failed %s: results, index, counters and restart = the failed-%s model on every case" % (what, what), ndis == 0 and ok_eval)
     return {"cases": ncmp, "selected_from": nsel}
 
 
@@ -254,6 +268,7 @@ def main(tier, seed):
                                 "case": c.show(), "impl": (c.impl or [])[:40]})
     rep.failing.sort(key=lambda f: len(f["case"]["ops"]))
     cov_tie = failed_append_tie(rep, cases)
+    cov_tie_fsync = failed_append_tie(rep, cases, "fsync")
     rep.coverage.update({
         "checker_cmd": "make -C coq Props/C20.vo (coqc 8.16.1) ; bin/check C20",
         "trusted_base": TRUSTED,
@@ -263,7 +278,7 @@ def main(tier, seed):
                 "effect), at " + ("every" if tier == "thorough" else "up to 18 sampled") + " call positions; afterwards every key "
                 "is read in the running process, the store is reopened and every key read again; distinct = (workload, position) "
                 "where the injector actually fired",
-        "fault_kinds": kinds, "exhaustive": tier == "thorough", "failed_append_model_tie": cov_tie,
+        "fault_kinds": kinds, "exhaustive": tier == "thorough", "failed_append_model_tie": cov_tie, "failed_fsync_model_tie": cov_tie_fsync,
         "samples": [cases[0].show()] if cases else [],
         "proof": {"file": "coq/Props/C20.v", "theorems": pr["theorems"], "axioms": pr["axioms"]},
     })
